@@ -83,6 +83,54 @@ def fam_face(ctx, rng):
     got = face.centroid
     if not X.pclose(X.fpt(c3), X.fpt(got), 1e-8, sc):
         ctx.violation('face3d:centroid:%s' % ('holes' if hs else 'plain'), 'centroid %r expected %r' % (got, c3), desc)
+    # the same shape placed by the library's own transforms AFTER it has answered its measures: the placed face is a valid face too,
+    # and its measures must be the exact ones of ITS OWN vertices (exact reference recomputed from the placed boundary / holes)
+    which = rng.choice(['move', 'rotate', 'rotate_xy', 'reflect', 'scale'])
+    try:
+        if which == 'move':
+            placed = face.move(V3(G.rvec3(rng, 100)))
+        elif which == 'rotate':
+            placed = face.rotate(V3(G.rvec3(rng, 1)), rng.uniform(-7, 7), P3(G.rpt3(rng, 100)))
+        elif which == 'rotate_xy':
+            placed = face.rotate_xy(rng.uniform(-7, 7), P3(G.rpt3(rng, 100)))
+        elif which == 'reflect':
+            nv = V3(G.rvec3(rng, 1)).normalize()
+            placed = face.reflect(nv, P3(G.rpt3(rng, 100)))
+        else:
+            placed = face.scale(G.dy(rng.uniform(0.25, 4)), P3(G.rpt3(rng, 100)))
+    except Exception as e:
+        ctx.violation('face3d:placed:%s:raises' % which, '%r' % (e,), desc); return
+    ctx.count('face3d.placed', key=(which, len(hs)), sample=dict(desc, transform=which))
+    pb = [X.fpt(p) for p in placed.boundary]; phs = [[X.fpt(p) for p in h] for h in (placed.holes or ())]
+    def newell_area(lp):
+        nw = X.newell(lp)
+        return math.sqrt(float(X.norm2(nw))) / 2
+    ea3 = newell_area(pb) - sum(newell_area(h) for h in phs)
+    if abs(placed.area - ea3) > 1e-8 * max(1.0, ea3):
+        ctx.violation('face3d:placed:%s:area' % which, 'area %r, the placed loops enclose %r' % (placed.area, ea3), dict(desc, transform=which)); return
+    # centroid: triangulate exactly by fanning each loop about its first vertex with the Newell normal (signed areas)
+    nrm = X.newell(pb)
+    def loop_moment(lp):
+        tot = Fraction(0); mx = [Fraction(0)] * 3
+        for i in range(1, len(lp) - 1):
+            cr = X.cross(X.sub(lp[i], lp[0]), X.sub(lp[i + 1], lp[0]))
+            a = X.dot(cr, nrm)          # proportional to the signed area (same factor for every triangle)
+            c_ = tuple((lp[0][k] + lp[i][k] + lp[i + 1][k]) / 3 for k in range(3))
+            tot += a
+            mx = [m + a * c_[k] for k, m in enumerate(mx)]
+        return tot, mx
+    T, M = loop_moment(pb)
+    for h in phs:
+        t, m = loop_moment(h)
+        sgn = -1 if t * T > 0 else 1      # holes are subtracted whatever their winding
+        T += sgn * t
+        M = [a + sgn * b_ for a, b_ in zip(M, m)]
+    if T != 0:
+        ec = tuple(float(m / T) for m in M)
+        gc = placed.centroid
+        scp = max(1.0, max(abs(float(c)) for p in pb for c in p))
+        if max(abs(a - b_) for a, b_ in zip(ec, gc)) > 1e-8 * scp:
+            ctx.violation('face3d:placed:%s:centroid' % which, 'centroid %r, the placed loops have %r' % (gc, ec), dict(desc, transform=which))
 
 
 def fam_mesh(ctx, rng):
